@@ -26,7 +26,7 @@ type c08Cfg struct {
 	Deps    [][2]int // i depends on j
 	EpicDep int      // 0 none, 1 E1->E2 (E1 depends on E2), 2 E2->E1
 	E2Gone  bool     // E2 pruned (only when it has no live child)
-	Variant int      // history variant: 0 plain, 1 every task re-assigned from another epic, 2 link/unlink noise, 3 reopened, 4 claim churn, 5 create events in reverse log order, 6 legacy epic state/claim events
+	Variant int      // history variant: 0 plain, 1 every task re-assigned from another epic, 2 link/unlink noise, 3 reopened, 4 claim churn, 5 create events in reverse log order, 6 legacy epic state/claim events, 7 created unfiled then filed
 }
 
 var c08Full = []c08Opt{
@@ -137,7 +137,7 @@ func (c c08Cfg) String() string {
 		sb.WriteString(" E2=pruned")
 	}
 	if c.Variant != 0 {
-		sb.WriteString(" history=" + []string{"plain", "reassigned", "link-unlink-noise", "reopened", "claim-churn", "creates-in-reverse-log-order", "legacy-epic-state-events"}[c.Variant])
+		sb.WriteString(" history=" + []string{"plain", "reassigned", "link-unlink-noise", "reopened", "claim-churn", "creates-in-reverse-log-order", "legacy-epic-state-events", "created-unfiled-then-filed"}[c.Variant])
 	}
 	return sb.String()
 }
@@ -161,6 +161,11 @@ func (c c08Cfg) build() (core.Store, []string, [2]string) {
 				from = e[k-1]
 			}
 			it.CreatedIn = &from
+		case 7: // created unfiled, filed under its epic afterwards
+			if in != "" {
+				from := ""
+				it.CreatedIn = &from
+			}
 		case 3:
 			it.Reopened = true
 		case 4:
@@ -269,7 +274,7 @@ func runC08(env *core.Env) {
 		if len(cfgs[i].Tasks) > 2 && !env.Thorough() {
 			continue
 		}
-		for v := 1; v <= 6; v++ {
+		for v := 1; v <= 7; v++ {
 			c := cfgs[i]
 			c.Variant = v
 			cfgs = append(cfgs, c)
